@@ -11,6 +11,7 @@
 """
 import itertools
 import json
+import random
 
 import numpy as np
 
@@ -64,8 +65,7 @@ def configs(tier):
         return q
     return q + [cfg(3, 3, 2, {0, 1, INF}, {2}, cap=30000, coverage=False),
                 cfg(3, 3, 3, {0, 1, INF}, {2}, cap=60000, coverage=False),
-                cfg(3, 3, 2, {0, 1, INF}, {0}, cap=30000, coverage=False),
-                cfg(3, 3, 2, {0, 2, 3}, {1}, cap=30000, coverage=False),
+                cfg(2, 3, 3, {0, 2, 3, INF}, {0, 1}, cap=30000, coverage=False),
                 cfg(4, 3, 4, {0, 1}, {2}, cap=60000, coverage=False),
                 cfg(4, 3, 3, {0, INF}, {1}, cap=40000, coverage=False),
                 cfg(6, 2, 4, {0, 1}, {1}, cap=40000, coverage=False),
@@ -139,10 +139,12 @@ def _run_case(case):
             outs.append("error")
         except Exception as ex:   # part of the observation
             outs.append("exception:" + type(ex).__name__)
-    if len(set(outs)) == 1:
+    # verdict-relevant: force_align and align_text (the return_seq_positions call is judged at drift level only)
+    if outs[0] == outs[2]:
         rec["outcome"] = outs[0]
     else:
         rec["outcome"] = "inconsistent:" + "/".join(outs)
+    rec["seq_outcome"] = outs[1]
     return rec
 
 
@@ -163,10 +165,28 @@ def execute(c, cases):
     return pmap(_run_case, cases, procs=6)
 
 
+def trace_constants(c, seq_clause=False):
+    k = tla_constants(c)
+    k["SeqClause"] = bool(seq_clause)
+    return k
+
+
 def judge(ctx, c, traces):
-    consts = tla_constants(c)
+    consts = trace_constants(c)
     acc, rej = ctx.validate("ForcedAlign_Trace", traces, constants=consts, shards=min(8, max(1, len(traces) // 400)),
                             label="ForcedAlign_Trace " + _lab(c))
+    # drift level: the return_seq_positions=True variant (plumbing between force_align and align_text, not named by the statement)
+    bad = {i for i, _ in rej}
+    sub = [tr for i, tr in enumerate(traces) if i not in bad and tr["outcome"] == "ok"]
+    if len(sub) > 3000:
+        sub = random.Random(len(sub)).sample(sub, 3000)
+    if sub:
+        before = ctx.traces_validated
+        _, rej2 = ctx.validate("ForcedAlign_Trace", sub, constants=trace_constants(c, True), shards=min(4, max(1, len(sub) // 400)),
+                               label="ForcedAlign_Trace (return_seq_positions, drift only) " + _lab(c))
+        ctx.traces_validated = before
+        for i, clause in rej2:
+            ctx.model_drift("clause %d: %s" % (clause, CLAUSES.get(clause, "?")), 1, {"cfg": _lab(c), "trace": sub[i]})
     for tr in traces:
         nt = tr["outcome"] == "ok" and c["T"] > len(tr["labels"])
         ctx.count(1, (tuple(map(tuple, tr["cm"])), tuple(tr["labels"]), tr["blank"]) if nt else None)
@@ -189,7 +209,7 @@ def selftests(ctx, c, traces):
                      ("init_state0", "FailsIffNoAlignment"), ("argmin_pos", "PositionsOK")):
         ctx.tlc("ForcedAlign", constants=tla_constants(small, mut), invariants=INVS, workers=4, timeout=900, coverage=False,
                 expect_violation=inv, label="ForcedAlign selftest Mut=%s" % mut)
-    consts = tla_constants(c)
+    consts = trace_constants(c)
     # (b1) the most-confident-frame clause: a hand-made case with ONE optimal alignment (blank impossible, so every frame carries the
     # label) whose middle frame is the only confident one; moving the position elsewhere cannot be explained by any other alignment
     if c["T"] == 3 and c["C"] == 3:
